@@ -248,7 +248,7 @@ XorByte(a, b) == BitsByte([i \in 1..8 |-> IF ByteBits(a)[i] # ByteBits(b)[i] THE
 \* Result [ok, v]; when ~ok, v is the class of the exception today's code raises.
 XorData(data, key) ==
     IF key.t = "bytes" /\ Len(key.b) # 1 THEN
-        (IF key.b = <<>> THEN Ok(<<>>)         \* zip with an empty cycle yields nothing ... (all-zero shortcut: empty key is "all zero")
+        (IF key.b = <<>> THEN Ok(data)         \* the empty key counts as all-zero: data unchanged
          ELSE Ok([i \in 1..Len(data) |-> XorByte(data[i], key.b[((i - 1) % Len(key.b)) + 1])]))
     ELSE LET k == IF key.t = "bytes" THEN VInt(key.b[1]) ELSE ToIntV(key) IN
          IF IsZero(k) THEN Ok(data)
